@@ -57,7 +57,7 @@ CLAIMED = {
              text="Salsa20/ChaCha: both key sizes, nonce classes, every even round count 2..20 (thorough) / 8, 20 and a rotating third (quick), |M| in {0,1,63,64,65,127,128,129,191,200}, prefixes, dec, start blocks 2^32-2..2^32+1 through hook H1 for the counter carry, the Salsa20 core; RC4: key lengths {1,2,5,16,255,256}, every composition of 6 bytes into pieces of 0..3 bytes and seeded piece sequences on one object incl. empty pieces, rejected key lengths.  Keys/nonces/messages are seeded.",
              ref="DESIGN.md section 7 C06"),
 
- 'C15': dict(tech="TLC: width-8 CRC laws for reflected polynomials (table = bitwise division, backward o forward = id) and the CRC-32 forging postcondition model-checked; TLC trace validation of crc32, generic CRCs of widths 8..64, backward computation and crc32_fix/crc32_fix_pos (judged by postcondition)",
+ 'C15': dict(tech="TLC: width-8 CRC laws for reflected polynomials (table = bitwise division, backward o forward = id) and the CRC-32 forging postcondition model-checked; TLC trace validation of crc32, generic CRCs of widths 8..64, backward computation and crc32_fix/crc32_fix_pos (judged by postcondition); inputs of 4 KiB..1.5 MiB recorded run-length encoded and judged by Crc!CrcRegRuns (byte step as an affine map over GF(2), powers by squaring; model-checked equal to the bytewise evaluation in MC_Crc)",
              text="crc32 on data classes and seeded data up to 300 bytes; crc(data, crc_table(P), init, final) for widths {8,12,16,24,31,32,33,40,64} with catalogue and random reflected polynomials and init/final classes, recomputed bitwise by TLC; crc_back_pos against the forward register at every tested position; crc32_fix and crc32_fix_pos at EVERY position of short data for target classes {0,1,2^31,2^32-1,random}: same length, only the 4-byte window differs, CRC-32 equals the target.",
              ref="DESIGN.md section 7 C15"),
 
